@@ -1083,6 +1083,7 @@ impl<BE: Backend> GLWEShiftDefault<BE> for Module<BE> where
         + VecZnxLshTmpBytes
         + VecZnxLshAssign<BE>
         + VecZnxLsh<BE>
+        + VecZnxZero
 {
 }
 
@@ -1096,7 +1097,8 @@ where
         + VecZnxRshTmpBytes
         + VecZnxLshTmpBytes
         + VecZnxLshAssign<BE>
-        + VecZnxLsh<BE>,
+        + VecZnxLsh<BE>
+        + VecZnxZero,
 {
     fn glwe_shift_tmp_bytes(&self) -> usize {
         let lvl_0: usize = self.vec_znx_rsh_tmp_bytes().max(self.vec_znx_lsh_tmp_bytes());
@@ -1162,8 +1164,14 @@ where
         assert!(res.rank() >= a.rank());
 
         let base2k: usize = res.base2k().into();
-        for i in 0..res.rank().as_usize() + 1 {
+        let a_cols: usize = a.rank().as_usize() + 1;
+        for i in 0..a_cols {
             self.vec_znx_lsh(base2k, k, res.data_mut(), i, a.data(), i, scratch);
+        }
+
+        // Columns `a` does not have (lower rank): their shift is zero
+        for i in a_cols..res.rank().as_usize() + 1 {
+            self.vec_znx_zero(res.data_mut(), i);
         }
     }
 
@@ -1188,7 +1196,8 @@ where
         assert!(res.rank() >= a.rank());
 
         let base2k: usize = res.base2k().into();
-        for i in 0..res.rank().as_usize() + 1 {
+        // Columns `a` does not have (lower rank) receive nothing
+        for i in 0..a.rank().as_usize() + 1 {
             self.vec_znx_lsh_add_into(base2k, k, res.data_mut(), i, a.data(), i, scratch);
         }
     }
@@ -1214,7 +1223,8 @@ where
         assert!(res.rank() >= a.rank());
 
         let base2k: usize = res.base2k().into();
-        for i in 0..res.rank().as_usize() + 1 {
+        // Columns `a` does not have (lower rank) receive nothing
+        for i in 0..a.rank().as_usize() + 1 {
             self.vec_znx_lsh_sub(base2k, k, res.data_mut(), i, a.data(), i, scratch);
         }
     }
